@@ -66,6 +66,32 @@ struct Controller {
     std::vector<std::string> log;         // control / region events for the demo traces
     bool log_enabled = false;
     std::vector<std::size_t> region_active; // allowed parallelism observed by every region (when log_enabled)
+    // footprint recording (data-race clause of C03): which elements of live concurrent_vectors a task touched / changed
+    bool footprints = false;
+    bool in_task = false;
+    std::vector<std::pair<int, std::size_t>> cur_touched;
+    struct VecHandle { const void *self; int id; std::function<void()> snap; std::function<void(std::vector<std::pair<int, std::size_t>> &)> diff; };
+    std::vector<VecHandle> vectors;
+    int next_vec_id = 0;
+    std::vector<std::string> fp_events;
+    std::string reduce_tasks;
+    void fp_begin_region() { if (footprints) for (auto &h : vectors) h.snap(); }
+    void fp_begin_task() { if (footprints) { in_task = true; cur_touched.clear(); } }
+    // returns JSON of one task's footprint
+    std::string fp_end_task(std::size_t lo, std::size_t hi) {
+        if (!footprints) return std::string();
+        in_task = false;
+        std::vector<std::pair<int, std::size_t>> written;
+        for (auto &h : vectors) h.diff(written);
+        std::sort(cur_touched.begin(), cur_touched.end());
+        cur_touched.erase(std::unique(cur_touched.begin(), cur_touched.end()), cur_touched.end());
+        std::string j = "{\"lo\":" + std::to_string(lo) + ",\"hi\":" + std::to_string(hi) + ",\"touched\":[";
+        for (std::size_t i = 0; i < cur_touched.size(); i++) j += (i ? ",[" : "[") + std::to_string(cur_touched[i].first) + "," + std::to_string(cur_touched[i].second) + "]";
+        j += "],\"written\":[";
+        for (std::size_t i = 0; i < written.size(); i++) j += (i ? ",[" : "[") + std::to_string(written[i].first) + "," + std::to_string(written[i].second) + "]";
+        j += "]}";
+        return j;
+    }
 
     void begin_call() { counter = 0; target_hit = false; regions.clear(); splits = steals = leaves = 0; }
     std::uint64_t rnd(std::uint64_t salt) {
@@ -157,6 +183,39 @@ inline ForSchedule next_for(std::size_t n) {
     return s;
 }
 
+// oneTBB never splits a range whose size is <= its grain size: keep only the cut points that a recursive
+// splitting of divisible ranges can produce (cut nearest to the middle first), keep the execution order
+inline void legalize_rec(const std::vector<std::size_t> &cuts, std::size_t lo, std::size_t hi, std::size_t grain, std::vector<std::size_t> &out) {
+    if (hi - lo > grain) {
+        std::size_t best = 0; bool have = false;
+        for (std::size_t c : cuts) if (c > lo && c < hi) {
+            std::size_t d = c > (lo + hi) / 2 ? c - (lo + hi) / 2 : (lo + hi) / 2 - c;
+            std::size_t bd = best > (lo + hi) / 2 ? best - (lo + hi) / 2 : (lo + hi) / 2 - best;
+            if (!have || d < bd) { best = c; have = true; }
+        }
+        if (have) { legalize_rec(cuts, lo, best, grain, out); out.push_back(best); legalize_rec(cuts, best, hi, grain, out); }
+    }
+}
+inline void legalize(ForSchedule &s, std::size_t n, std::size_t grain) {
+    if (grain <= 1 || s.bounds.size() <= 2) return;
+    std::vector<std::size_t> keep; keep.push_back(0);
+    legalize_rec(s.bounds, 0, n, grain, keep);
+    keep.push_back(n);
+    std::sort(keep.begin(), keep.end());
+    // order of the new chunks = order in which their first original chunk was scheduled
+    std::vector<int> pos(s.bounds.size() - 1);
+    for (std::size_t i = 0; i < s.perm.size(); i++) pos[(std::size_t) s.perm[i]] = (int) i;
+    std::vector<std::pair<int, int>> key;
+    for (std::size_t k = 0; k + 1 < keep.size(); k++) {
+        int best = 1 << 30;
+        for (std::size_t j = 0; j + 1 < s.bounds.size(); j++) if (s.bounds[j] >= keep[k] && s.bounds[j] < keep[k + 1]) best = std::min(best, pos[j]);
+        key.push_back(std::make_pair(best, (int) k));
+    }
+    std::sort(key.begin(), key.end());
+    s.bounds = keep; s.perm.clear();
+    for (auto &kv : key) s.perm.push_back(kv.second);
+}
+
 } // namespace vtbb
 
 namespace tbb {
@@ -168,26 +227,34 @@ public:
     typedef T const_iterator;
     typedef std::size_t size_type;
     blocked_range() : b_(), e_() {}
-    blocked_range(T b, T e, size_type = 1) : b_(b), e_(e) {}
+    blocked_range(T b, T e, size_type g = 1) : b_(b), e_(e), g_(g ? g : 1) {}
     T begin() const { return b_; }
     T end() const { return e_; }
     size_type size() const { return (size_type) (e_ - b_); }
     bool empty() const { return !(b_ < e_); }
-    bool is_divisible() const { return size() > 1; }
-    size_type grainsize() const { return 1; }
+    bool is_divisible() const { return size() > g_; }
+    size_type grainsize() const { return g_; }
 private:
     T b_, e_;
+    size_type g_ = 1;
 };
 
 template<class Range, class Body> void parallel_for(const Range &range, const Body &body) {
     std::size_t n = range.size();
     if (range.empty()) return;
     vtbb::ForSchedule s = vtbb::next_for(n);
+    vtbb::legalize(s, n, range.grainsize());
+    vtbb::Controller &c = vtbb::ctl();
+    c.fp_begin_region();
+    std::string tasks;
     for (int ci : s.perm) {
-        vtbb::ctl().leaves++;
-        Range sub(range.begin() + s.bounds[(std::size_t) ci], range.begin() + s.bounds[(std::size_t) ci + 1]);
+        c.leaves++;
+        Range sub(range.begin() + s.bounds[(std::size_t) ci], range.begin() + s.bounds[(std::size_t) ci + 1], range.grainsize());
+        c.fp_begin_task();
         body(sub);
+        if (c.footprints) { if (!tasks.empty()) tasks += ","; tasks += c.fp_end_task(s.bounds[(std::size_t) ci], s.bounds[(std::size_t) ci + 1]); }
     }
+    if (c.footprints) c.fp_events.push_back("{\"e\":\"ForRegion\",\"kind\":\"for\",\"n\":" + std::to_string(n) + ",\"tasks\":[" + tasks + "]}");
 }
 
 namespace vtbb_detail {
@@ -195,10 +262,14 @@ template<class Range, class Value, class Body, class Join>
 Value eval(const std::vector<vtbb::Node> &t, int id, const Range &range, std::size_t lo, std::size_t hi, const Value &init,
         const Value &identity, const Body &body, const Join &join) {
     const vtbb::Node &nd = t[(std::size_t) id];
-    if (nd.leaf) {
-        vtbb::ctl().leaves++;
-        Range sub(range.begin() + lo, range.begin() + hi);
-        return body(sub, init);
+    if (nd.leaf || hi - lo <= range.grainsize()) {     // oneTBB never splits a range that is not divisible
+        vtbb::Controller &c = vtbb::ctl();
+        c.leaves++;
+        Range sub(range.begin() + lo, range.begin() + hi, range.grainsize());
+        c.fp_begin_task();
+        Value r = body(sub, init);
+        if (c.footprints) { if (!c.reduce_tasks.empty()) c.reduce_tasks += ","; c.reduce_tasks += c.fp_end_task(lo, hi); }
+        return r;
     }
     vtbb::ctl().splits++;
     if (!nd.stolen) {                       // same body object continues with the right half
@@ -222,7 +293,11 @@ Value parallel_reduce(const Range &range, const Value &identity, const Body &bod
     if (range.empty()) return identity;
     std::size_t n = range.size();
     std::vector<vtbb::Node> t = vtbb::next_reduce(n);
-    return vtbb_detail::eval(t, 0, range, 0, n, identity, identity, body, join);
+    vtbb::Controller &c = vtbb::ctl();
+    c.fp_begin_region(); c.reduce_tasks.clear();
+    Value r = vtbb_detail::eval(t, 0, range, 0, n, identity, identity, body, join);
+    if (c.footprints) c.fp_events.push_back("{\"e\":\"ForRegion\",\"kind\":\"reduce\",\"n\":" + std::to_string(n) + ",\"tasks\":[" + c.reduce_tasks + "]}");
+    return r;
 }
 
 template<class T> class concurrent_vector {
@@ -233,14 +308,15 @@ public:
     typedef T value_type;
     typedef blocked_range<iterator> range_type;
     typedef blocked_range<const_iterator> const_range_type;
-    concurrent_vector() {}
+    concurrent_vector() { reg(); }
+    ~concurrent_vector() { vtbb::Controller &c = vtbb::ctl(); for (std::size_t i = 0; i < c.vectors.size(); i++) if (c.vectors[i].self == this) { c.vectors.erase(c.vectors.begin() + (long) i); break; } }
     iterator push_back(const T &v) { d_.push_back(v); return d_.end() - 1; }
     iterator push_back(T &&v) { d_.push_back(std::move(v)); return d_.end() - 1; }
     template<class... A> iterator emplace_back(A&&... a) { d_.emplace_back(std::forward<A>(a)...); return d_.end() - 1; }
-    T &operator[](size_type i) { return d_[i]; }
-    const T &operator[](size_type i) const { return d_[i]; }
-    T &at(size_type i) { return d_.at(i); }
-    const T &at(size_type i) const { return d_.at(i); }
+    T &operator[](size_type i) { touch(i); return d_[i]; }
+    const T &operator[](size_type i) const { touch(i); return d_[i]; }
+    T &at(size_type i) { touch(i); return d_.at(i); }
+    const T &at(size_type i) const { touch(i); return d_.at(i); }
     iterator begin() { return d_.begin(); }
     iterator end() { return d_.end(); }
     const_iterator begin() const { return d_.begin(); }
@@ -253,7 +329,24 @@ public:
     void reserve(size_type) {}
     range_type range(size_type = 1) { return range_type(begin(), end()); }
 private:
+    concurrent_vector(const concurrent_vector &);
+    void touch(size_type i) const { vtbb::Controller &c = vtbb::ctl(); if (c.in_task) c.cur_touched.push_back(std::make_pair(id_, (std::size_t) i)); }
+    template<class U> static auto same(const U &a, const U &b, int) -> decltype(a.begin(), bool()) { return a.size() == b.size() && std::equal(a.begin(), a.end(), b.begin()); }
+    template<class U> static bool same(const U &a, const U &b, long) { return a == b; }
+    void reg() {
+        vtbb::Controller &c = vtbb::ctl();
+        id_ = c.next_vec_id++;
+        vtbb::Controller::VecHandle h; h.self = this; h.id = id_;
+        h.snap = [this]() { snap_ = d_; };
+        h.diff = [this](std::vector<std::pair<int, std::size_t>> &out) {
+            for (std::size_t i = 0; i < d_.size(); i++) if (i >= snap_.size() || !same(d_[i], snap_[i], 0)) out.push_back(std::make_pair(id_, i));
+            snap_ = d_;
+        };
+        c.vectors.push_back(h);
+    }
+    int id_ = 0;
     std::deque<T> d_;
+    std::deque<T> snap_;
 };
 
 class task_group {
